@@ -358,7 +358,7 @@ func init() {
 		Cases: func(tier string) int64 {
 			switch tier {
 			case "thorough":
-				return 1500000
+				return 600000
 			case "race":
 				return 0
 			}
